@@ -512,6 +512,13 @@ impl<'a, 'tcx> Cx<'a, 'tcx> {
                 if let Some(tr) = tcx.trait_of_assoc(*did) {
                     v.push(("trait", J::s(path_s(tcx, tr))));
                 }
+                if matches!(tcx.def_kind(*did), DefKind::Fn | DefKind::AssocFn) {
+                    let tc = tcx
+                        .codegen_fn_attrs(*did)
+                        .flags
+                        .contains(rustc_middle::middle::codegen_fn_attrs::CodegenFnAttrFlags::TRACK_CALLER);
+                    v.push(("decl_track_caller", J::Bool(tc)));
+                }
                 if let Some(imp) = tcx.impl_of_assoc(*did) {
                     let self_ty = tcx.type_of(imp).instantiate_identity().skip_norm_wip();
                     v.push(("impl_self", ty_j_shallow(tcx, self_ty)));
@@ -527,6 +534,7 @@ impl<'a, 'tcx> Cx<'a, 'tcx> {
                     v.push(("resolved_local", J::Bool(rd.is_local())));
                     v.push(("resolved_krate", J::s(tcx.crate_name(rd.krate).to_string())));
                     v.push(("resolved_kind", J::s(format!("{:?}", inst.def).split('(').next().unwrap_or("").to_string())));
+                    v.push(("track_caller", J::Bool(inst.def.requires_caller_location(tcx))));
                 }
                 J::Obj(v)
             }
